@@ -32,7 +32,7 @@ ASSUMPTIONS = ["docutils front end (publish with MyST Parser); line numbers obse
                "option warnings of a directive may carry the line of the directive or of its option block opener "
                "(colon style reports the former, dash style the latter; both pinned by the repository's fixtures)"]
 
-EXT = ["colon_fence"]
+EXT = ["colon_fence", "deflist", "fieldlist", "dollarmath", "amsmath"]
 ADM = {"note": "note", "tip": "tip", "warning": "warning", "admonition": "admonition"}
 
 
@@ -68,6 +68,43 @@ class B:
         return B(d["kind"], d["mk"], ch, **d["p"])
 
 
+# further leaf constructs: kind -> (lines, [(tag, which marker, line offset)], [(warning needle prefix, offset)])
+# markers: 0 = the block's own marker mk, 1.. = the extra markers in p["x"]
+def _m(b, i):
+    return b.mk if i == 0 else b.p["x"][i - 1]
+
+
+XLEAF = {
+    "table": (2, lambda b: [f"| th mk{_m(b,0)} | b |", "|---|---|", f"| td mk{_m(b,1)} | 2 |", f"| td mk{_m(b,2)} | 4 |"],
+              [("table", 0, 0), ("row", 0, 0), ("entry", 0, 0), ("paragraph", 0, 0),
+               ("row", 1, 2), ("entry", 1, 2), ("paragraph", 1, 2), ("row", 2, 3), ("entry", 2, 3), ("paragraph", 2, 3)]),
+    "deflist": (1, lambda b: [f"Term mk{_m(b,0)}", f": Definition mk{_m(b,1)}"],
+                [("definition_list", 0, 0), ("definition_list_item", 0, 0), ("term", 0, 0), ("definition", 1, 1), ("paragraph", 1, 1)]),
+    "fieldlist": (1, lambda b: [f":field: value mk{_m(b,0)}", f":other: value mk{_m(b,1)}"],
+                  [("field_list", 0, 0), ("field", 0, 0), ("paragraph", 0, 0), ("field", 1, 1), ("paragraph", 1, 1)]),
+    "footdef": (0, lambda b: [f"[^fn{_m(b,0)}]: footnote mk{_m(b,0)}", "    more"], [("footnote", 0, 0), ("paragraph", 0, 0)]),
+    "bbreak": (0, lambda b: [f"+++ mk{_m(b,0)}"], [("comment", 0, 0)]),
+    "lcomment": (0, lambda b: [f"% cmk{_m(b,0)}"], [("comment", 0, 0)]),
+    "html": (0, lambda b: ["<div>", f"html mk{_m(b,0)}", "</div>"], [("raw", 0, 0)]),
+    "math": (0, lambda b: ["$$", f"x mk{_m(b,0)}", "$$"], [("math_block", 0, 0)]),
+    "amsmath": (0, lambda b: ["\\begin{equation}", f"mk{_m(b,0)}", "\\end{equation}"], [("math_block", 0, 0)]),
+    # inline constructs on later lines of a paragraph carry the line of the paragraph (see notes: reading)
+    "para3": (0, lambda b: [f"para mk{_m(b,0)} text", f"second [lmk{_m(b,0)}](http://x.org/a) ![imk{_m(b,0)}](i.png) <span>h</span>",
+                            f"third {{rmk{_m(b,0)}}}`x` end"],
+              [("paragraph", 0, 0), ("reference", 0, 0), ("image", 0, 0)]),
+    # directives with their own line logic (search only)
+    "figure": (1, lambda b: ["```{figure} img.png", f":name: fmk{_m(b,0)}", "", f"caption mk{_m(b,0)}", "", f"legend mk{_m(b,1)}", "```"],
+               [("figure", 0, 0), ("caption", 0, 3), ("paragraph", 1, 5)]),
+    "codeblock": (0, lambda b: ["```{code-block} python", f":name: cbmk{_m(b,0)}", "", f"code mk{_m(b,0)}", "```"],
+                  [("literal_block", 0, 0)]),
+    "tabledir": (2, lambda b: [f"```{{table}} Title mk{_m(b,0)}", f":name: tbmk{_m(b,0)}", "", f"| th mk{_m(b,1)} | b |", "|---|---|",
+                               f"| td mk{_m(b,2)} | 2 |", "```"],
+                 [("table", 0, 3), ("title", 0, 0), ("row", 1, 3), ("paragraph", 1, 3), ("row", 2, 5), ("paragraph", 2, 5)]),
+}
+XWARN = {"para3": [("rmk", 0, 0, "role")]}
+BACKTICK_LEAVES = ("figure", "codeblock", "tabledir")
+
+
 class Gen:
     def __init__(self, rng, max_depth=5, allow_include=True):
         self.rng, self.n, self.max_depth, self.allow_include = rng, 0, max_depth, allow_include
@@ -80,6 +117,13 @@ class Gen:
     def leaf(self, prev_kind, in_item_first=False):
         r = self.rng
         kinds = ["para", "para", "para2", "heading", "code", "target", "badrole", "baddir"]
+        if not in_item_first and r.random() < 0.45:
+            # two adjacent definition / field lists would merge into one (and markdown-it maps the definitions of
+            # such a loose list to their term's line)
+            k = r.choice(sorted(x for x in XLEAF if x != prev_kind or x not in ("deflist", "fieldlist")))
+            b = B(k, self.mk())
+            b.p["x"] = [self.mk() for _ in range(XLEAF[k][0])]
+            return b
         if prev_kind in ("para", "para2", "heading", "code", "target", "quote", "dir", "div", "badrole", "baddir") and not in_item_first:
             kinds.append("icode")
         if in_item_first:
@@ -112,6 +156,8 @@ class Gen:
         style = r.choice(["none", "none", "colon", "dash"])
         nopts = r.randint(1, 2) if style != "none" else 0
         kids = self.seq(depth + 1, r.randint(1, 3))
+        if kids[0].kind == "fieldlist":        # directly after the opening line it would be the directive's options
+            kids[0] = B("para", kids[0].mk)
         bb = r.choice([0, 0, 1, 1, 2, 3])
         # a ':::' fence directly after the opening line or after ':key:' options would be read as an option line
         # (the renderer only handles it for a colon directive without options, by its prepended-line trick)
@@ -163,7 +209,7 @@ def fence_heights(b):
     elif b.kind == "div":
         hc += 1
         b.p["flen"] = 2 + hc
-    elif b.kind in ("baddir", "include"):
+    elif b.kind in ("baddir", "include") + BACKTICK_LEAVES:
         hb = max(hb, 1)
     return hb, hc
 
@@ -199,6 +245,8 @@ def print_block(b, start, file, chain, files, rec):
         return [f"    icode {mk}"]
     if k == "target":
         return [f"({mk})="]
+    if k in XLEAF:
+        return XLEAF[k][1](b)
     if k == "baddir":
         return [f"```{{d{mk}}}", "x", "```"]
     if k == "quote":
@@ -246,7 +294,7 @@ def print_block(b, start, file, chain, files, rec):
         if p["fence"] == ":" and not opts and not p["blank_before"] and first_child is not None and \
                 first_child.kind in ("dir", "div") and first_child.p.get("fence", ":") == ":":
             flags.append("colon-nested-first")
-        inner = print_seq(b.ch, start + len(head), file, chain + ((":".join(flags), b.mk),), files, rec)
+        inner = print_seq(b.ch, start + len(head), file, chain + ((":".join(flags), b.mk, len(opts)),), files, rec)
         return head + inner + [""] * p["blank_after"] + [f]
     if k == "include":
         p = b.p
@@ -288,6 +336,8 @@ def first_marker(b, files=None):
     files = files or {}
     if b.kind in ("target", "baddir"):
         return None
+    if b.kind == "lcomment":
+        return b.mk
     if b.kind == "include":
         return first_of(files.get(b.p["fname"], {}).get("body", []), files)
     if b.kind in ("blist", "olist"):
@@ -328,11 +378,18 @@ def expected_records(recs, main, files=None):
                 warns.append((f"kmk{b.mk}", {b.start, b.start + 1}, b.file, b.chain, "option"))
             if b.p["firstline"] and b.p["name"] != "admonition":
                 # the first-line text is a paragraph that starts on the directive's own line
-                nodes.append(("paragraph", b.mk, b.start, b.file, b.chain + (("dir:firstline-body", b.mk),)))
+                nodes.append(("paragraph", b.mk, b.start, b.file, b.chain + (("dir:firstline-body", b.mk, 0),)))
         elif b.kind == "baddir":
             warns.append((f"dmk{b.mk}", {b.start}, b.file, b.chain, "directive"))
         elif b.kind == "include":
             pass
+        elif b.kind in XLEAF:
+            for tag, which, off in XLEAF[b.kind][2]:
+                cell = tag in ("row", "entry") or (tag == "paragraph" and b.kind in ("table", "tabledir"))
+                extra = (("table-cell", b.mk),) if cell else (("docutils-code-block", b.mk),) if b.kind == "codeblock" else ()
+                nodes.append((tag, _m(b, which), b.start + off, b.file, b.chain + extra))
+            for pre, which, off, what in XWARN.get(b.kind, []):
+                warns.append((f"{pre}{_m(b, which)}", {b.start + off}, b.file, b.chain, what))
         else:
             for t in TAGS[b.kind]:
                 nodes.append((t, fm, b.start, b.file, b.chain))
@@ -344,7 +401,7 @@ def expected_records(recs, main, files=None):
 def build_case(rng, max_depth=5, nblocks=None):
     g = Gen(rng, max_depth=max_depth)
     doc = g.seq(1, nblocks or rng.randint(1, 4))
-    return {"doc": [b.to_json() for b in doc],
+    return {"doc": [b.to_json() for b in doc], "front": rng.random() < 0.2,
             "files": {f: {"pre": [b.to_json() for b in s["pre"]], "body": [b.to_json() for b in s["body"]],
                           "post": [b.to_json() for b in s["post"]], "mode": s["mode"]} for f, s in g.files.items()}}
 
@@ -360,7 +417,9 @@ def realise(case):
             for b in s[part]:
                 fence_heights(b)
     recs = []
-    lines = print_seq(doc, 1, "main.md", (), files, recs)
+    # front matter at the top shifts every line of the document
+    front = ["---", "author: someone", "myst:", "  title_to_header: false", "---", ""] if case.get("front") else []
+    lines = front + print_seq(doc, 1 + len(front), "main.md", (), files, recs)
     text = "\n".join(lines) + "\n"
     realise.trees = files
     return text, {f: s["text"] for f, s in files.items() if "text" in s}, recs
@@ -370,7 +429,9 @@ def realise(case):
 
 MK = re.compile(r"mk(\d+)")
 NODE_TAGS = {"paragraph", "title", "section", "rubric", "literal_block", "target", "block_quote", "bullet_list",
-             "enumerated_list", "list_item", "container", "note", "tip", "warning", "admonition"}
+             "enumerated_list", "list_item", "container", "note", "tip", "warning", "admonition",
+             "table", "row", "entry", "definition_list", "definition_list_item", "term", "definition", "field_list", "field",
+             "footnote", "comment", "raw", "math_block", "reference", "image", "figure", "caption"}
 
 
 def observe(text, files):
@@ -392,6 +453,8 @@ def observe(text, files):
                 if n.tagname in NODE_TAGS:
                     if n.tagname == "target":
                         m = MK.search(" ".join(n.get("names", []) + n.get("ids", [])))
+                    elif n.tagname == "image":
+                        m = MK.search(n.get("alt", ""))
                     else:
                         m = MK.search(clean_text(n))
                     src = n.source
@@ -426,18 +489,29 @@ KNOWN_CTX = {"include:plain": "include", "include:start-after": "include", "incl
 
 
 def classify(tag, chain, delta):
-    """failure signature: the innermost re-parse context, unless the deviation is what an open finding accounts for:
-    - a directive whose first line is body text reports its content as if the body began on the next line
-      (any deviation inside such a directive is attributed to it);
-    - each enclosing {include} adds one line."""
+    """failure signature: the innermost re-parse context and the deviation - unless the deviation is EXACTLY what the
+    open findings account for (C04_include_lines_offset, C04_first_line_body_offset):
+    - each enclosing {include} adds one line;
+    - a directive whose first line is body text places its body as if it began on the next line: + 1 - (lines of its
+      option block) for everything in it (+ 1 for the first-line paragraph itself);
+    - rows / entries / cell paragraphs of a table carry no line of their own (whatever they show is stale).
+    [delta] may be a list of candidate deviations (warnings accept two lines)."""
     kinds = [c[0] for c in chain]
-    if any("firstline-body" in k for k in kinds):
-        return "line:dir-firstline-body"
-    incs = [k for k in kinds if k.startswith("include:")]
-    if incs and delta == len(incs):
-        return "line:include:+1"
+    if "table-cell" in kinds:
+        return "line:table-cell"
+    cands = delta if isinstance(delta, list) else [delta]
+    # lines inside an included file are relative to that file: only what encloses the construct INSIDE the file counts
+    last_inc = max((i for i, c in enumerate(chain) if c[0].startswith("include:")), default=None)
+    inner_chain = chain if last_inc is None else chain[last_inc:]
+    fl = [c for c in inner_chain if "firstline-body" in c[0]]
+    incs = [c for c in inner_chain if c[0].startswith("include:")]
+    if fl or incs:
+        expected = sum(1 - (c[2] if len(c) > 2 else 0) for c in fl) + len(incs)
+        if expected in cands:
+            return "line:dir-firstline-body" if fl else "line:include:+1"
+    d = min((x for x in cands if isinstance(x, int)), key=abs, default="none")
     inner = kinds[-1] if kinds else "top"
-    return f"line:{inner}:{delta:+d}" if isinstance(delta, int) else f"line:{inner}:{delta}"
+    return f"line:{inner}:{d:+d}" if isinstance(d, int) else f"line:{inner}:{d}"
 
 
 def check_case(ctx, case):
@@ -472,6 +546,10 @@ def check_case(ctx, case):
             structure_ok = False
             continue
         for (eline, esrc, chain), (gline, gsrc) in zip(exps, gots):
+            if gline is None and key[0] == "literal_block" and any(c[0] == "docutils-code-block" for c in chain):
+                # docutils' CodeBlock sets no line itself: the node only inherits document.current_line (= the
+                # directive's line) when its parent is already attached to the document, i.e. at top level
+                continue
             if gline != eline:
                 delta = (gline - eline) if isinstance(gline, int) else "none"
                 ctx.fail(classify(key[0], chain, delta), case,
@@ -479,7 +557,8 @@ def check_case(ctx, case):
                          expected={"line": eline, "source": esrc}, observed={"line": gline, "source": gsrc})
                 ok = False
             elif gsrc != esrc:
-                ctx.fail("source:" + (chain[-1][0] if chain else "top"), case,
+                ctx.fail("line:table-cell" if any(c[0] == "table-cell" for c in chain) else
+                         "source:" + (chain[-1][0] if chain else "top"), case,
                          f"{key[0]} node of marker mk{key[1]}: source {gsrc}, expected {esrc}",
                          expected={"line": eline, "source": esrc}, observed={"line": gline, "source": gsrc})
                 ok = False
@@ -493,13 +572,9 @@ def check_case(ctx, case):
             continue
         for l, s in hits:
             if l not in lines:
-                incs = len([c for c in chain if c[0].startswith("include:")])
-                delta = "none"
-                if isinstance(l, int):
-                    ds = [l - x for x in sorted(lines)]
-                    delta = incs if (incs and incs in ds) else min(ds, key=abs)
+                delta = [l - x for x in sorted(lines)] if isinstance(l, int) else "none"
                 sig = classify("warning", chain, delta)
-                ctx.fail(sig if sig in ("line:include:+1", "line:dir-firstline-body") else "warning-" + sig, case, f"warning naming {needle} carries line {l}, expected {sorted(lines)} in {src}",
+                ctx.fail(sig if sig in ("line:include:+1", "line:dir-firstline-body", "line:table-cell") else "warning-" + sig, case, f"warning naming {needle} carries line {l}, expected {sorted(lines)} in {src}",
                          expected={"lines": sorted(lines), "source": src}, observed={"line": l, "source": s})
                 ok = False
             elif s != src:
@@ -547,7 +622,11 @@ def fixed_cases():
 
 # ------------------------------------------------------------------ correspondence with the extracted model
 
-# model grammar (coq/Dir/Lines.v): tuples ('L',m,more) ('Q',m,bs) ('I',m,bs) ('V',m,bb,ba,bs) ('D',m,fk,os,nopts,bb,ba,bs)
+# model grammar (coq/Dir/Lines.v): tuples ('L',kind,m,more,ins) ('Q',m,bs) ('I',m,bs) ('V',m,bb,ba,bs)
+# ('D',m,fk,os,nopts,bb,ba,bs); leaf kinds 0 para 1 heading 2 code 3 target 4 block break 5 line comment 6 html 7 math 8 table
+LEAF_TAG = {0: "paragraph", 1: "heading", 2: "literal_block", 3: "target", 4: "comment", 5: "comment", 6: "raw",
+            7: "math_block", 8: "table"}
+
 
 def colon_start(t):
     return t[0] == "V" or (t[0] == "D" and t[2] == "c")
@@ -560,7 +639,14 @@ def gen_model_tree(rng, depth, counter, first_in=None):
     counter[0] += 1
     m = counter[0]
     if depth <= 0 or rng.random() < 0.3:
-        return ("L", m, rng.choice([0, 0, 1, 2]))
+        kind = rng.choice([0, 0, 0, 1, 2, 3, 4, 5, 6, 7, 8])
+        more = rng.choice([0, 0, 1, 2])
+        ins = []
+        if kind == 0 and rng.random() < 0.5:
+            for _ in range(rng.randint(1, 2)):
+                counter[0] += 1
+                ins.append((counter[0], rng.randint(0, more)))
+        return ("L", kind, m, more, ins)
     k = rng.choice(["Q", "I", "V", "D", "D", "D"])
     n = rng.randint(1, 3)
     if k in ("Q", "I"):
@@ -583,7 +669,7 @@ def gen_model_tree(rng, depth, counter, first_in=None):
 
 def enc_tree(t):
     if t[0] == "L":
-        return f"L {t[1]} {t[2]}"
+        return " ".join([f"L {t[1]} {t[2]} {t[3]} {len(t[4])}"] + [f"{a} {b}" for a, b in t[4]])
     if t[0] in "QI":
         return " ".join([f"{t[0]} {t[1]} {len(t[2])}"] + [enc_tree(c) for c in t[2]])
     if t[0] == "V":
@@ -596,8 +682,9 @@ def tree_kids(t):
 
 
 def tree_first_leaf(t):
+    """the first marker visible as text inside the node (a target leaves no text)."""
     if t[0] == "L":
-        return t[1]
+        return None if t[1] == 3 else t[2]
     for c in tree_kids(t):
         x = tree_first_leaf(c)
         if x is not None:
@@ -605,19 +692,26 @@ def tree_first_leaf(t):
     return None
 
 
-def tree_preorder(t, out):
-    tag = {"L": "paragraph", "Q": "block_quote", "I": "list_item", "V": "container", "D": "note"}[t[0]]
-    out.append((tag, tree_first_leaf(t), t[1]))
+def tree_preorder(t, out, inl):
+    if t[0] == "L":
+        out.append((LEAF_TAG[t[1]], t[2], t[2]))
+        inl.extend(a for a, _ in t[4])
+    else:
+        tag = {"Q": "block_quote", "I": "list_item", "V": "container", "D": "note"}[t[0]]
+        out.append((tag, tree_first_leaf(t), t[1]))
     for c in tree_kids(t):
-        tree_preorder(c, out)
+        tree_preorder(c, out, inl)
 
 
 MLEAF = re.compile(r"\bm(i*)\b")      # the model writes markers in unary: "miii" = 3
+MROLE = re.compile(r'role "r(i*)"')
+MODEL_TAGS = ("paragraph", "block_quote", "list_item", "container", "note", "title", "rubric", "literal_block", "target",
+              "comment", "raw", "math_block", "table")
 
 
 def observe_model_doc(text):
     from docutils import nodes as N
-    from lib.impl import parse_only
+    from lib.impl import parse_only, parse_warnings
     doc, ws = parse_only(text, {"myst_enable_extensions": EXT}, source_path="<string>")
     out = []
 
@@ -625,13 +719,22 @@ def observe_model_doc(text):
         if isinstance(n, N.system_message):
             return
         if isinstance(n, N.Element):
-            if n.tagname in ("paragraph", "block_quote", "list_item", "container", "note"):
-                m = MLEAF.search(clean_text(n))
+            if n.tagname in MODEL_TAGS:
+                if n.tagname == "target":
+                    m = MLEAF.search(" ".join(n.get("names", []) + n.get("ids", [])))
+                else:
+                    m = MLEAF.search(clean_text(n))
                 out.append((n.tagname, len(m.group(1)) if m else None, n.line))
             for c in n.children:
                 walk(c)
     walk(doc)
-    return out
+    roles = []
+    for w in parse_warnings(ws):
+        if (w["tag"] or "") == "myst.role_unknown":
+            m = MROLE.search(w["msg"])
+            if m:
+                roles.append((len(m.group(1)), w["line"]))
+    return out, roles
 
 
 def corr_unit(args):
@@ -656,26 +759,22 @@ def corr_unit(args):
         text = "\n".join(tlines) + "\n"
         pred = dict((int(a), int(b)) for a, b in (x.split(":") for x in lf.split(";"))) if lf != "." else {}
         truth = dict((int(a), int(b)) for a, b in (x.split(":") for x in truthf.split(";"))) if truthf != "." else {}
+        exp, inl = [], []
+        for t in doc:
+            tree_preorder(t, exp, inl)
         # [locate] against [print]: the line the model calls the true line of a leaf holds that leaf's marker
-        leaves = []
-
-        def collect(t):
-            if t[0] == "L":
-                leaves.append(t[1])
-            for c in tree_kids(t):
-                collect(c)
-        for t in doc:
-            collect(t)
-        for mk in leaves:
-            ln = truth.get(mk)
-            if ln is None or not (1 <= ln <= len(tlines)) or not re.search(r"(^|[ >])m" + "i" * mk + "$", tlines[ln - 1]):
-                st["dis"].append(({"kind": "model", "doc": doc, "text": text}, f"marker {mk} not on line {ln} of the printed text", "locate"))
-                break
-        exp = []
-        for t in doc:
-            tree_preorder(t, exp)
+        located = True
+        for tag, fm, mk in exp:
+            if tag in LEAF_TAG.values() and tag not in ("literal_block", "raw", "math_block"):
+                ln = truth.get(mk)
+                if ln is None or not (1 <= ln <= len(tlines)) or not re.search(r"\bm" + "i" * mk + r"\b", tlines[ln - 1]):
+                    st["dis"].append(({"kind": "model", "doc": doc, "text": text}, f"marker {mk} not on line {ln} of the printed text", "locate"))
+                    located = False
+                    break
+        if not located:
+            continue
         try:
-            got = observe_model_doc(text)
+            got, roles = observe_model_doc(text)
         except Exception as e:
             st["dis"].append(({"kind": "model", "doc": doc, "text": text}, "!" + type(e).__name__, "lines"))
             continue
@@ -683,12 +782,14 @@ def corr_unit(args):
         for tag, fm, line in got:
             got_by.setdefault((tag, fm), []).append(line)
         for tag, fm, mk in exp:
+            if tag == "heading":
+                tag = "title" if ("title", fm) in got_by else "rubric"
             exp_by.setdefault((tag, fm), []).append(mk)
         bad = None
         structure = True
         for key, mks in exp_by.items():
             if key[1] is None:
-                continue    # containers without any leaf cannot be identified in the doctree
+                continue    # containers without visible text cannot be identified in the doctree
             ls = got_by.get(key, [])
             if len(ls) != len(mks):
                 structure = False
@@ -699,10 +800,20 @@ def corr_unit(args):
         if not structure:
             st["skipped"] += 1
             continue
+        # inline level: the unknown-role warnings
+        rl = dict(roles)
+        if sorted(rl) != sorted(inl):
+            st["skipped"] += 1
+            continue
+        for im in inl:
+            if pred.get(im) != rl[im]:
+                bad = (("role-warning", im), im, rl[im], pred.get(im))
         if any(t[0] in "DV" for t in doc) or depth >= 2:
             st["nontriv"] += 1
         for t in doc:
             st["counts"][t[0]] = st["counts"].get(t[0], 0) + 1
+        if inl:
+            st["counts"]["inline"] = st["counts"].get("inline", 0) + 1
         if bad:
             if len(st["dis"]) < 5:
                 st["dis"].append(({"kind": "model", "doc": doc, "text": text},
@@ -764,6 +875,62 @@ def include_corr(ctx):
                          repr(got)[:300], repr(mo)[:300])
 
 
+def include_doc_corr(ctx):
+    """documents of the model grammar rendered as an {include}d file: the model's [include_lines] (true line + 1 for
+    every construct, C04_include_lines_offset) against the implementation."""
+    from docutils import nodes as N
+    from lib.common import dec_strs
+    from lib.impl import parse_only, scratch_dir
+    rng = ctx.rng
+    trees, reqs = [], []
+    for _ in range(ctx.budget(120, 1200, 1200)):
+        counter = [0]
+        doc = [gen_model_tree(rng, rng.randint(0, 3), counter) for _ in range(rng.randint(1, 3))]
+        trees.append(doc)
+        toks = " ".join(enc_tree(t) for t in doc)
+        reqs += ["doc\t-\t" + toks, "incdoc\t0\t" + toks]
+    outs = model_run(PID, reqs)
+    for i, doc in enumerate(trees):
+        o, oi = outs[2 * i], outs[2 * i + 1]
+        ctx.corr_cases += 1
+        ctx.count("corr:include-doc")
+        if o.startswith("!") or oi.startswith("!"):
+            ctx.disagree("include_lines", {"kind": "model", "doc": doc}, "?", o + " " + oi)
+            continue
+        text = "\n".join(dec_strs(o.split("\t")[0])) + "\n"
+        pred = dict((int(a), int(b)) for a, b in (x.split(":") for x in oi.split(";"))) if oi != "." else {}
+        with scratch_dir() as d:
+            with open(os.path.join(d, "inc.md"), "w") as fh:
+                fh.write(text)
+            try:
+                tree, _ws = parse_only("```{include} inc.md\n```\n", {"myst_enable_extensions": EXT},
+                                       source_path=os.path.join(d, "main.md"))
+            except Exception as e:
+                ctx.disagree("include_lines", {"kind": "model", "doc": doc, "text": text}, "!" + type(e).__name__, "lines")
+                continue
+        got = {}
+        for n in tree.findall(N.paragraph):
+            if any(isinstance(a, N.system_message) for a in _ancestors(n)):
+                continue
+            m = MLEAF.search(clean_text(n))
+            if m and n.parent.tagname != "entry":
+                got.setdefault(len(m.group(1)), n.line)
+        exp, inl = [], []
+        for t in doc:
+            tree_preorder(t, exp, inl)
+        for tag, fm, mk in exp:
+            if tag == "paragraph" and mk in got and got[mk] != pred.get(mk):
+                ctx.disagree("include_lines", {"kind": "model", "doc": doc, "text": text, "include": True},
+                             f"paragraph m{mk}: line {got[mk]}", f"line {pred.get(mk)}")
+                break
+
+
+def _ancestors(n):
+    while n.parent is not None:
+        n = n.parent
+        yield n
+
+
 def corr(ctx):
     if not ctx.have_runner:
         return
@@ -790,6 +957,7 @@ def corr(ctx):
                         [d for d in ctx.disagreements if d["case"] is None]
     ctx.suspects = [c for c in ctx.suspects if c]
     include_corr(ctx)
+    include_doc_corr(ctx)
 
 
 def check_model_text(ctx, c):
@@ -806,7 +974,7 @@ def check_model_text(ctx, c):
             where[len(m.group(2))] = i + 1
     ok = True
     try:
-        got = observe_model_doc(text)
+        got, _roles = observe_model_doc(text)
     except Exception as e:
         ctx.fail("exception:" + type(e).__name__, c, f"parsing raised {e!r}")
         return False
